@@ -10,3 +10,15 @@ Theorem C12_error_position_in_input : forall s p, (p <= length s)%nat ->
   exists ln, nth_error (lines s) (l - 1) = Some ln /\ (1 <= c)%nat /\ (c - 1 <= length ln)%nat.
 Proof. exact error_position_in_input. Qed.
 Print Assumptions C12_error_position_in_input.
+
+(* totality of the model: the fuel the model parser is given is always sufficient, so on every input its verdict is
+   a definition, a parse error or a duplicate list - never "out of fuel" (the corresponding statement about the
+   implementation - no panic, no divergence - is what the differential run observes) *)
+From VL Require Import FuelProofs.
+Theorem C12_model_parser_total : forall s : str, parse_idl s <> PFuel.
+Proof. exact parse_idl_never_out_of_fuel. Qed.
+Print Assumptions C12_model_parser_total.
+
+Theorem C12_model_try_from_total : forall s : str, try_from s <> OOutOfFuel.
+Proof. exact try_from_never_out_of_fuel. Qed.
+Print Assumptions C12_model_try_from_total.
